@@ -11,12 +11,14 @@ TARGET_CONTIGS = [['chr1', 'chr2', 'chr10', 'chrX'], ['chrM', 'chr10', 'chrX', '
 
 
 class Ref:
-    """stand-in for pysam.FastaFile / CachedFasta: .fetch(contig, start, end)"""
-    def __init__(self, seq):
+    """stand-in for pysam.FastaFile / CachedFasta: .fetch(contig, start, end); `other` = {contig: sequence} for the
+    contigs that do not carry the default sequence"""
+    def __init__(self, seq, other=None):
         self.seq = seq
+        self.other = other or {}
 
     def fetch(self, contig=None, start=None, end=None, **kw):
-        return self.seq[start:end]
+        return self.other.get(contig, self.seq)[start:end]
 
 
 def mk_read(hdr, name, r, sample, umi, bc, mx, is_r2, paired, contig=CONTIG):
@@ -27,7 +29,11 @@ def mk_read(hdr, name, r, sample, umi, bc, mx, is_r2, paired, contig=CONTIG):
     a.query_sequence = r['seq']
     a.query_qualities = array('B', r['qual'])
     a.flag = 0
-    if r.get('unmapped'):
+    contig = r.get('contig', contig)      # a read of a chimeric pair / of a merged molecule names its own contig
+    if r.get('unplaced'):
+        a.is_unmapped = True               # no contig, no coordinate: the fragment's span has no contig either
+        a.mapping_quality = 0
+    elif r.get('unmapped'):
         a.is_unmapped = True
         a.reference_id = hdr.get_tid(contig)
         a.reference_start = r['pos']
@@ -70,6 +76,15 @@ def rec_info(rec, refseq):
          'blocks': [list(b) for b in rec.get_blocks()],
          'infer_query_length': rec.infer_query_length(), 'reference_end': rec.reference_end}
     try:
+        # htslib/pysam rebuild the reference from MD in C; an MD tag that does not describe as many columns as the CIGAR
+        # aligns can corrupt memory there instead of raising - refuse it here
+        import re
+        md = rec.get_tag('MD') if rec.has_tag('MD') else None
+        if md is not None:
+            cols = sum(int(x) for x in re.findall(r'[0-9]+', md)) + len(re.findall(r'[A-Za-z]', re.sub(r'\^[A-Za-z]+', '', md)))
+            want = sum(n for op, n in (rec.cigartuples or []) if op in (0, 7, 8))
+            if cols != want:
+                raise ValueError('MD tag %s describes %d aligned columns, the CIGAR has %d' % (md[:40], cols, want))
         ap = rec.get_aligned_pairs(matches_only=True, with_seq=True)
         d['md_ref'] = ''.join(b.upper() for _, _, b in ap)
         d['md_pos'] = [p for _, p, _ in ap]
@@ -92,8 +107,8 @@ def run_api(cases, scratch):
         res.append(info)
         try:
             MolC, FragC, fargs, mx = classes(c['klass'])
-            ref = Ref(c['ref'])
-            refs[ci] = c['ref']
+            ref = Ref(c['ref'], c.get('other_refs'))
+            refs[ci] = c.get('chrom_ref', c['ref'])
             contig = c.get('contig', CONTIG)
             out = outs[c.get('target', 0)]
             frags, pairs = [], []
@@ -109,18 +124,26 @@ def run_api(cases, scratch):
                     pairs.append([list(x) for x in a.get_aligned_pairs(matches_only=True)])
                 frags.append(FragC(rs, **fargs))
             info['pysam_pairs'] = pairs
-            margs = {'reference': ref}
+            margs = {'reference': ref} if c.get('reference', True) else {}
             if c.get('max_fragments') is not None:
                 margs['max_associated_fragments'] = c['max_fragments']
             mol = MolC(frags[0], **margs)
             added = 1
-            for f in frags[1:]:
+            merge_from = c.get('merge_from')
+            for f in frags[1:merge_from]:
                 try:
                     if mol.add_fragment(f):
                         added += 1
                 except OverflowError:
                     pass
+            if merge_from is not None:
+                # fragments on another contig never associate through add_fragment; they arrive by merging molecules
+                for f in frags[merge_from:]:
+                    mol.add_molecule(MolC(f, **margs))
+                    added += 1
             info['added'] = added
+            info['chromosome'] = mol.chromosome
+            refs[ci] = ref.other.get(mol.chromosome, c['ref'])     # the sequence of the contig the records go to
             info['overflow'] = mol.overflow_fragments
             info['umi'] = mol.umi
             info['strand'] = mol.strand
@@ -299,6 +322,27 @@ def run_cli(libs, scratch):
     return res
 
 
+def run_phred(probs):
+    """the REAL Molecule.extract_stretch_from_dict on a base-call dictionary holding the given probabilities (floats, given as
+    exact [numerator, denominator]); returns the phred scores it derives (or the error)"""
+    from singlecellmultiomics.molecule import Molecule
+
+    class Stub:
+        chromosome = 'chr1'
+    out, out_default = [], None
+    for k in range(0, len(probs), 500):
+        chunk = probs[k:k + 500]
+        try:
+            d = {('chr1', i): ('A', n / dn) for i, (n, dn) in enumerate(chunk)}
+            seq, ph = Molecule.extract_stretch_from_dict(Stub(), d, 0, len(chunk) + 1)     # one position beyond: the default
+            out += [int(x) for x in ph[:len(chunk)]]
+            if k == 0:
+                out_default = [seq[-1], int(ph[-1])]
+        except BaseException as e:
+            return {'error': '%s: %s' % (type(e).__name__, e)}
+    return {'phred': out, 'default': out_default if probs else None}
+
+
 def handler(p):
     scratch = os.environ.get('SCMO_SCRATCH', '.')
     devnull = open(os.devnull, 'w')
@@ -309,6 +353,7 @@ def handler(p):
         out['api'] = run_api(p.get('api', []), scratch)
         out['cli'] = run_cli(p.get('cli', []), scratch)
         out['hist'] = run_hist(p.get('hist', []), scratch)
+        out['phred'] = run_phred(p.get('phred', []))
         # the float table the implementation uses: 1 - np.power(10, -q/10), as exact fractions over 2^60
         import numpy as np
         tab = []
